@@ -125,10 +125,11 @@ const (
 	jMerge
 	jCreate
 	jCorpus
+	jTooLong
 	nJobKinds
 )
 
-var jobName = [nJobKinds]string{"parse-text", "parse-json", "validate", "write", "marshal", "flatten", "segment", "merge", "create", "parse-corpus"}
+var jobName = [nJobKinds]string{"parse-text", "parse-json", "validate", "write", "marshal", "flatten", "segment", "merge", "create", "parse-corpus", "parse-too-long"}
 
 var (
 	corpusOnce  sync.Once
@@ -251,6 +252,23 @@ func runJob(kind int, seed uint64) (res string) {
 		}
 	}()
 	r := gen.NewRand(seed)
+	if kind == jTooLong {
+		// a text longer than the reader is told to accept: Read stops with ErrFileTooLong (an error path that hands its
+		// line buffer back early would leave the pool in a state the other jobs then see)
+		f, err := gen.File(r, genOpts(r))
+		if err != nil {
+			return "generator: " + err.Error()
+		}
+		text, err := gen.Write(f, false)
+		if err != nil {
+			return "write: " + err.Error()
+		}
+		rd := ach.NewReader(bytes.NewReader(text))
+		rd.SetMaxLines(1 + r.Intn(3))
+		g, err := rd.Read()
+		js, _ := json.Marshal(&g)
+		return errText(err) + "\n" + stripJSON(js, false)
+	}
 	if kind == jCorpus {
 		cs := corpus()
 		if len(cs) == 0 {
@@ -278,6 +296,23 @@ func runJob(kind int, seed uint64) (res string) {
 		return "generator:" + err.Error()
 	}
 	invalid := r.Chance(1, 3)
+	if r.Chance(1, 3) && (kind == jWrite || kind == jMarshal || kind == jFlatten || kind == jSegment) {
+		// values longer than their columns, as the API and JSON admit: rendering truncates them (a path of its own in
+		// the converters)
+		over := strings.Repeat("Xy", 20)
+		for _, b := range f.Batches {
+			if h := b.GetHeader(); h != nil {
+				h.CompanyName += over
+				h.CompanyDiscretionaryData += over
+			}
+			for _, e := range b.GetEntries() {
+				e.IndividualName += over
+				e.IdentificationNumber += over
+			}
+		}
+		f.Header.ImmediateDestinationName += over
+		f.Header.ImmediateOriginName += over
+	}
 	switch kind {
 	case jCreate:
 		return fileResult(f, false)
